@@ -308,11 +308,84 @@ def special_stream(ctx, res, n):
                 os.environ.pop(var, None)
 
 
+def list_item_stream(ctx, res):
+    """configurations that are items of a configuration list (plain schema and config type, also one list level deeper) built from
+    the maps of a loaded tree or document: a field of the item schema bound to a non-empty variable holds the validated variable,
+    whatever the document gives for it; explicit assignment afterwards wins; unset / empty variables leave the document's value"""
+    import os
+    import cincoconfig as cc
+    named = "CINCO_T_C14_ITEM_TOKEN"
+    derived = "CINCO_T_C14IT_TOKEN"
+    for binding in ("named", "prefix"):
+        for typed in (False, True):
+            for state in ("valid", "unset", "empty"):
+                for route in ("load_tree", "json", "yaml", "assign-list", "append-map"):
+                    for deeper in (False, True):
+                        var = named if binding == "named" else derived
+                        for v in (named, derived):
+                            os.environ.pop(v, None)
+                        item = cc.Schema(env="CINCO_T_C14IT") if binding == "prefix" else cc.Schema()
+                        item.token = cc.StringField(env=named, default="dflt") if binding == "named" else cc.StringField(default="dflt")
+                        item.count = cc.IntField(default=0, env=False)
+                        T = cc.make_type(item, "EnvItem") if typed else item
+                        s = cc.Schema()
+                        if deeper:
+                            group = cc.Schema()
+                            group.members = cc.ListField(T, default=lambda: [])
+                            s.groups = cc.ListField(group, default=lambda: [])
+                            tree = {"groups": [{"members": [{"token": "from-doc", "count": 1}, {"count": 2}]}]}
+                        else:
+                            s.items = cc.ListField(T, default=lambda: [])
+                            tree = {"items": [{"token": "from-doc", "count": 1}, {"count": 2}]}
+                        if state == "valid":
+                            os.environ[var] = "from-env"
+                        elif state == "empty":
+                            os.environ[var] = ""
+                        try:
+                            cfg = s()
+                            if route == "load_tree":
+                                cfg.load_tree(tree)
+                            elif route in ("json", "yaml"):
+                                cfg.loads(cc.ConfigFormat.get(route).dumps(cfg, tree), format=route)
+                            elif route == "assign-list":
+                                if deeper:
+                                    cfg.groups = tree["groups"]
+                                else:
+                                    cfg.items = tree["items"]
+                            else:
+                                if deeper:
+                                    cfg.groups.append({"members": []})
+                                    for m in tree["groups"][0]["members"]:
+                                        cfg.groups[0].members.append(m)
+                                else:
+                                    for m in tree["items"]:
+                                        cfg.items.append(m)
+                            members = cfg.groups[0].members if deeper else cfg.items
+                            got = [m.token for m in members]
+                            members[0].token = "assigned"
+                            after = members[0].token
+                        except Exception as e:  # noqa
+                            got, after = "raised %s: %s" % (type(e).__name__, str(e)[:80]), None
+                        finally:
+                            for v in (named, derived):
+                                os.environ.pop(v, None)
+                        want = ["from-env", "from-env"] if state == "valid" else ["from-doc", "dflt"]
+                        case = {"stream": "list-item-env", "binding": binding, "config_type": typed, "variable": state, "route": route, "nested_list": deeper, "held": got}
+                        res.case(stable(case), kind="list-item-env:%s:%s" % (state, route))
+                        if got != want:
+                            res.violate("C14:list-item-env", "a field of a list-item configuration bound to %s variable holds %s" %
+                                        ("a non-empty" if state == "valid" else "an unset / empty", "the document's value, not the variable" if state == "valid" else "something else than the document's value / its default"),
+                                        dict(case, want=want))
+                        elif after != "assigned":
+                            res.violate("C14:assignment-does-not-win", "an explicit assignment to a variable-bound field of a list item is not the value held", dict(case, after=after))
+
+
 def run(ctx, n_quick=120, n_thorough=4000):
     res = Result()
     guard(res, "C14", names_stream, ctx, res)
     guard(res, "C14", precedence_stream, ctx, res, ctx.n(n_quick, n_thorough))
     guard(res, "C14", special_stream, ctx, res, ctx.n(60, 1500))
+    guard(res, "C14", list_item_stream, ctx, res)
     return res
 
 
